@@ -187,6 +187,17 @@ def restart (st : St) (now : Nat) : St :=
   { st with rl := st.rl.map (fun l => { l with recs := FMap.empty }), mem := live, db := live }
 
 
+/-- `n` failed logins at one instant from `n` addresses never seen before
+(`base ≤ k < base + n`), as far as the limiter is concerned: each is asked
+about (cleanup; not blocked, being fresh) and counted once.  The table is an
+unbounded finite map: nothing is ever evicted to make room. -/
+def Limiter.flood (l : Limiter) (now base n : Nat) : Limiter :=
+  let unt := if 1 ≥ l.max then now + l.blockDur else now + failedAuthTTL
+  { l with recs := fun k =>
+      if base ≤ k ∧ k < base + n then some ⟨unt, 1⟩ else cleanup now l.recs k }
+
+def flood (st : St) (now base n : Nat) : St := { st with rl := st.rl.map (fun l => if n = 0 then l else l.flood now base n) }
+
 /-! ### handleLogin is two steps; N logins at once
 
 A login request first asks the limiter (`check`), then evaluates the password
